@@ -186,3 +186,9 @@ TEXT["C13"] = dict(
     note="Partial: only part of the model sections is generated (no textures, cameras, lights, emitters, rotations, anim files); whole-model content preservation is the oracle's part. One defect repaired in /repo (skin submesh record size 40 vs 48); one known finding (D40: tiny old-layout skins are taken for the versioned layout).",
     technique="Lean 4 proof (invariant over the first-occurrence relocation map and the emitted data, by induction over the blob list) + differential correspondence on relocated offsets + round-trip/conversion oracles",
 )
+
+TEXT["C05"] = dict(
+    text="Machine-checked Lean 4 theorems about the loops every container parser starts with and the allocation rule: the MPQ header search returns within len/512+1 probes on every input and an offset it reports carries the header signature (findHeader_terminates, scan_at_sound); chunk discovery returns at most len/8 chunks whose headers and payloads together are no longer than the input (discover_bounded); a declared count reserves at most 64K elements and a read buffer never exceeds what is left of the stream. Tied to the code by comparing both loops with the implementation on mutated inputs, and — for the property proper, which is about the compiled code — a supervised mutation run over all formats and entry points with panic capture, worker-death detection, progress watchdog and allocation accounting.",
+    note="Partial by nature: totality of the Rust parsers is established by running them on structured mutants (sampling), not by proof. Eight fix commits in /repo (one per crate) removed every crash the run found: header-controlled allocations up to 85 GB, process aborts, arithmetic overflows, a third-party decoder panic reachable through an unchecked header byte.",
+    technique="Lean 4 proof (fuel sufficiency for the header scan, size accounting for the chunk walk) + supervised structure-aware mutation testing with allocation accounting",
+)
